@@ -25,6 +25,35 @@ def base_point(sp, rng, tags, scale=1.0):
     return functab.rand_el(sp, rng, scale)
 
 
+class _RealView(object):
+    """Functional on a complex space seen through real numbers: real values, elements whose inner product is Re <., .>."""
+
+    def __init__(self, f):
+        self._f = f
+
+    def __call__(self, x):
+        v = self._f(getattr(x, '_x', x))
+        if abs(np.imag(v)) > 1e-12 * max(1.0, abs(v)):
+            raise ValueError('value of a norm-type functional is not real: %r' % (v,))
+        return float(np.real(v))
+
+    @property
+    def convex_conj(self):
+        return _RealView(self._f.convex_conj)
+
+    @property
+    def gradient(self):
+        g = self._f.gradient
+        return lambda x: g(x)
+
+    def proximal(self, sigma):
+        return self._f.proximal(sigma)
+
+
+def rinner(x, y):
+    return float(np.real(x.inner(y)))
+
+
 def extreme_el(sp, rng, scale):
     """All entries +-scale (exactly representable magnitudes down to the smallest denormal); same signs in every part so
     that inner products of two such elements do not cancel."""
@@ -73,6 +102,9 @@ def check(ctx, fname, sname, sp, f, tags, rng):
         ctx.violation(comp, cfg, 'convex_conj-raises:' + type(e).__name__, message=str(e)[:200])
         return
     ctx.case('conjugate-pair;%s;%s' % (fname, sname), 0)
+    if 'complex' in tags:
+        # a complex Hilbert space as a real one: <x, y>_R = Re <x, y>; values may come back complex-typed with zero imaginary part
+        f, fc = _RealView(f), _RealView(fc)
     novalue = 'novalue' in tags
     # documented convention 0 log 0 := 0 (prior with exact zeros): the values *on* the boundary of the domains, where the
     # limit argument of the rounding allowance below does not reach
@@ -106,8 +138,8 @@ def check(ctx, fname, sname, sp, f, tags, rng):
                 fy = fc(y)
                 if np.isfinite(fx) and np.isfinite(fy):
                     n += 1
-                    gap = x.inner(y) - fx - fy
-                    if gap > 1e-9 * max(1, abs(fx), abs(fy), abs(x.inner(y))):
+                    gap = rinner(x, y) - fx - fy
+                    if gap > 1e-9 * max(1, abs(fx), abs(fy), abs(rinner(x, y))):
                         ctx.violation(comp, cfg, 'conjugate-inconsistent', symptom='fenchel-young-violated', gap=float(gap), fx=float(fx), fy=float(fy))
                         break
             # extreme magnitudes: tiny-but-non-zero points against huge slopes and vice versa (products of the form
@@ -122,7 +154,7 @@ def check(ctx, fname, sname, sp, f, tags, rng):
                         with np.errstate(over='raise', invalid='raise', divide='ignore', under='ignore'):
                             x = extreme_el(sp, rng, sx)
                             y = extreme_el(sp, rng, sy)
-                            fx, fy, ip = f(x), fc(y), x.inner(y)
+                            fx, fy, ip = f(x), fc(y), rinner(x, y)
                     except FloatingPointError:
                         ctx.note_add('extreme_pairs_outside_float_range')
                         continue
@@ -179,8 +211,8 @@ def check(ctx, fname, sname, sp, f, tags, rng):
                         break
                 if np.isfinite(fx) and np.isfinite(fy):
                     n += 1
-                    gap = fx + fy - x.inner(y)
-                    if abs(gap) > 1e-8 * max(1, abs(fx), abs(fy), abs(x.inner(y))):
+                    gap = fx + fy - rinner(x, y)
+                    if abs(gap) > 1e-8 * max(1, abs(fx), abs(fy), abs(rinner(x, y))):
                         ctx.violation(comp, cfg, 'conjugate-inconsistent', symptom='fenchel-young-equality-at-gradient', gap=float(gap), fx=float(fx), fy=float(fy))
                         break
             ctx.ev('fy-equality', n)
@@ -232,7 +264,7 @@ def run(ctx):
                      'biconjugate and the Moreau decomposition for sigma in {0.4, 2}; distinct = distinct (functional, space)')
     rng = ctx.rng('c08')
     crng = ctx.crng('ctor')
-    recipes = list(functab.all_functionals(crng, ctx.thorough))
+    recipes = list(functab.all_functionals(crng, ctx.thorough, with_complex=True))
     for sname, sp in functab.spaces():
         for fname, thunk, tags in extra_functionals(sp, crng):
             recipes.append((fname, sname, sp, thunk, tags))
